@@ -68,6 +68,8 @@ def guarded(rec, part, case, fn, clause="no unexpected exception"):
     """Run fn(); an unexpected exception inside the library is reported as a violation of `clause`."""
     try:
         return True, fn()
+    except SystemExit as e:
+        rec.violation(part, "the library called exit(%s)" % e.code, case, clause, observed="SystemExit(%s)" % e.code)
     except AssertionError as e:
         rec.violation(part, "assertion inside the library", case, clause, observed="AssertionError: %s" % e)
     except Exception as e:
